@@ -164,6 +164,22 @@ def run(cx: Cx):
         else:
             cx.ok('R-GUARD', f"{fnr.qualname}: no direct raise on the present branch", where=cx.where(fnr), function=fnr.qualname)
 
+    # ------------------------------------------------------------ clause 4a: an agent is known by the identifier it was created with
+    ainit_ = cx.fn(CORE + 'Agent.__init__')
+    for p in cx.walker.paths(ainit_, WalkOptions(unroll=1)):
+        if p.end == 'raise':
+            continue
+        st_ = [e for e in p.events if e.kind == 'store' and e.data.get('attr') == 'id']
+        if len(st_) == 1 and st_[0].data.get('value') == Sym(ainit_.params[1]):
+            cx.ok('R-FWD', 'Agent.id := the identifier given to the constructor, unchanged', where=cx.where(ainit_, st_[0].line), function=ainit_.qualname)
+        else:
+            cx.violation('R-FWD', ainit_.qualname, 'id-field-from-parameter',
+                         f"Agent.__init__ does not store its '{ainit_.params[1]}' argument unchanged in the field 'id' (found "
+                         f"{[repr(e.data.get('value')) for e in st_]}): the environment is keyed by another value than the identifier the "
+                         f"agent was created with, so lookup and removal by that identifier fail and distinct identifiers can collide",
+                         where=cx.where(ainit_))
+        break
+
     # ------------------------------------------------------------ clause 4b: a rejection does not need a model
     # an environment may have no model (Environment(None), as the tests build it): on the paths that end in the documented
     # rejection nothing reads through self.model - otherwise the operation fails with AttributeError instead
